@@ -87,3 +87,50 @@ V("c05-register-in-operation", "C05", "break", "R05.7", "decrypt_compact registe
 V("c05-benign-is-not-none", "C05", "benign", "", "gate rewritten with early return",
   "rfc7515/registry.py", "        if self.allowed:\n            if name not in self.allowed:\n                raise UnsupportedAlgorithmError(f'Algorithm of \"{name}\" is not allowed')\n        else:\n            if name not in self.recommended:\n                raise UnsupportedAlgorithmError(f'Algorithm of \"{name}\" is not recommended')\n",
   "        if self.allowed and name not in self.allowed:\n            raise UnsupportedAlgorithmError(f'Algorithm of \"{name}\" is not allowed')\n        if not self.allowed and name not in self.recommended:\n            raise UnsupportedAlgorithmError(f'Algorithm of \"{name}\" is not recommended')\n")
+
+# ------------------------------------------------------------------------------------------------ C02
+V("c02-aad-from-parsed-header", "C02", "break", "R02.2", "AAD rebuilt from the parsed protected header",
+  "rfc7516/message.py", '    aad = obj.base64_segments["aad"]\n    if isinstance(obj, BaseJSONEncryption) and obj.aad:\n        aad = aad + b"." + urlsafe_b64encode(obj.aad)\n\n    msg = enc.decrypt(',
+  '    aad = json_b64encode(obj.protected)\n    if isinstance(obj, BaseJSONEncryption) and obj.aad:\n        aad = aad + b"." + urlsafe_b64encode(obj.aad)\n\n    msg = enc.decrypt(')
+V("c02-json-aad-reencoded", "C02", "break", "R02.2", "JSON extractor stores a re-encoded protected header as AAD",
+  "rfc7516/json.py", '        "aad": to_bytes(data["protected"]),', '        "aad": json_b64encode(json_b64decode(data["protected"])),')
+V("c02-cbc-truncated-tag", "C02", "break", "R02.4", "CBC-HMAC compares only len(tag) octets",
+  "rfc7518/jwe_encs.py", "        if not hmac.compare_digest(ctag, tag):", "        if not hmac.compare_digest(ctag[:len(tag)], tag):")
+V("c02-cbc-decrypt-before-tag", "C02", "break", "R02.4", "CBC decrypts before checking the tag",
+  "rfc7518/jwe_encs.py", "        ctag = self._hmac(ciphertext, aad, iv, hkey)\n        if not hmac.compare_digest(ctag, tag):\n            raise DecodeError(\"tag does not match\")\n\n        cipher = Cipher(AES(dkey), CBC(iv), backend=default_backend())\n        d = cipher.decryptor()\n        data = d.update(ciphertext) + d.finalize()\n",
+  "        cipher = Cipher(AES(dkey), CBC(iv), backend=default_backend())\n        d = cipher.decryptor()\n        data = d.update(ciphertext) + d.finalize()\n        ctag = self._hmac(ciphertext, aad, iv, hkey)\n        if not hmac.compare_digest(ctag, tag):\n            raise DecodeError(\"tag does not match\")\n\n")
+V("c02-cbc-mac-without-aad", "C02", "break", "R02.4", "CBC-HMAC tag computed without the AAD",
+  "rfc7518/jwe_encs.py", "        ctag = self._hmac(ciphertext, aad, iv, hkey)\n        if not", "        ctag = self._hmac(ciphertext, b\"\", iv, hkey)\n        if not")
+V("c02-gcm-missing-aad", "C02", "break", "R02.4", "GCM decrypt does not authenticate the AAD",
+  "rfc7518/jwe_encs.py", "        d = cipher.decryptor()\n        d.authenticate_additional_data(aad)\n        try:", "        d = cipher.decryptor()\n        try:")
+V("c02-chacha-no-verify", "C02", "break", "R02.4", "ChaCha20 decrypts without verifying the tag",
+  "drafts/jwe_chacha20.py", "        return chacha.decrypt_and_verify(ciphertext, tag)", "        return chacha.decrypt(ciphertext)")
+V("c02-drop-check-iv", "C02", "break", "R02.5", "check_iv removed from the decrypt pipeline",
+  "rfc7516/message.py", "    iv = obj.bytes_segments[\"iv\"]\n    enc.check_iv(iv)\n", "    iv = obj.bytes_segments[\"iv\"]\n")
+V("c02-check-iv-weak", "C02", "break", "R02.5", "check_iv only refuses short IVs",
+  "rfc7516/models.py", "        if len(iv) * 8 != self.iv_size:  # pragma: no cover", "        if len(iv) * 8 < self.iv_size:  # pragma: no cover")
+V("c02-direct-ek-guard-off", "C02", "break", "R02.6", "non-empty encrypted key accepted in direct mode",
+  "rfc7516/message.py", "        if recipient.encrypted_key:  # pragma: no cover\n            raise InvalidEncryptedKeyError()\n\n", "")
+V("c02-verify-all-default-false", "C02", "break", "R02.7", "verify_all_recipients defaults to False",
+  "rfc7516/registry.py", "            verify_all_recipients: bool = True,", "            verify_all_recipients: bool = False,")
+V("c02-swallow-recipient-errors", "C02", "break", "R02.7", "recipient errors swallowed unconditionally",
+  "rfc7516/message.py", "            if registry.verify_all_recipients:\n                raise error\n", "            pass\n")
+V("c02-no-cek-length-check", "C02", "break", "R02.7", "CEK length check dropped",
+  "rfc7516/message.py", "    cek = cek_set.pop()\n    if len(cek) * 8 != enc.cek_size:  # pragma: no cover\n        raise InvalidCEKLengthError(f\"A key of size {enc.cek_size} bits MUST be used\")\n", "    cek = cek_set.pop()\n")
+V("c02-multi-cek-allowed", "C02", "break", "R02.7", "different CEKs from recipients tolerated",
+  "rfc7516/message.py", "    if len(cek_set) > 1:  # pragma: no cover\n        raise DecodeError('Multiple \"cek\" found')\n", "")
+V("c02-ec-curve-guard-off", "C02", "break", "R02.8", "ECDH exchange without the curve equality guard",
+  "rfc7518/ec_key.py", "        if self.private_key and self.curve_name == key.curve_name:", "        if self.private_key:")
+V("c02-plaintext-from-ciphertext", "C02", "break", "R02.1", "plaintext set from the raw ciphertext when zip is absent",
+  "rfc7516/message.py", "    else:\n        obj.plaintext = msg\n", "    else:\n        obj.plaintext = ciphertext\n")
+V("c02-key-from-module-state", "C02", "break", "R02.9", "A128KW unwraps with a key cached on the model",
+  "rfc7518/jwe_algs.py", "        op_key = key.get_op_key(\"unwrapKey\")\n        assert recipient.encrypted_key is not None\n        return self.unwrap_cek(recipient.encrypted_key, op_key)",
+  "        op_key = getattr(self, \"_last_key\", key).get_op_key(\"unwrapKey\")\n        assert recipient.encrypted_key is not None\n        return self.unwrap_cek(recipient.encrypted_key, op_key)")
+V("c02-benign-neq-compare", "C02", "benign", "", "CBC-HMAC tag compared with != instead of compare_digest",
+  "rfc7518/jwe_encs.py", "        if not hmac.compare_digest(ctag, tag):", "        if ctag != tag:")
+V("c02-benign-cek-check-order", "C02", "benign", "", "multiple/empty CEK guards swapped",
+  "rfc7516/message.py", "    if not cek_set:\n        raise DecodeError('Invalid recipients')\n\n    if len(cek_set) > 1:  # pragma: no cover\n        raise DecodeError('Multiple \"cek\" found')\n",
+  "    if len(cek_set) > 1:  # pragma: no cover\n        raise DecodeError('Multiple \"cek\" found')\n\n    if len(cek_set) == 0:\n        raise DecodeError('Invalid recipients')\n")
+V("c02-benign-aad-local", "C02", "benign", "", "received header bound to a local first",
+  "rfc7516/message.py", '    aad = obj.base64_segments["aad"]\n    if isinstance(obj, BaseJSONEncryption) and obj.aad:\n        aad = aad + b"." + urlsafe_b64encode(obj.aad)\n\n    msg = enc.decrypt(',
+  '    header_segment = obj.base64_segments["aad"]\n    aad = header_segment\n    if isinstance(obj, BaseJSONEncryption) and obj.aad:\n        aad = b".".join([header_segment, urlsafe_b64encode(obj.aad)])\n\n    msg = enc.decrypt(')
